@@ -1,5 +1,7 @@
 import Pacti.Proofs.Optimize
 import Pacti.Proofs.LP
+import Pacti.Proofs.Lists
+import Pacti.Model.PolyAlg
 /-!
 # C12 — optimisation over a contract returns the true optimum, `None` iff unbounded
 
@@ -36,6 +38,47 @@ theorem bounds_enclose (O : Oracle) (hO : O.PresolveAmbiguous) (l : TL) (x : Var
     (h : variableBounds O l x = .ok (lo, hi)) :
     ∀ v, TL.holds l v → (∀ a, lo = some a → a ≤ v x) ∧ (∀ b, hi = some b → v x ≤ b) :=
   Poly.bounds_enclose O hO l x lo hi h
+
+/-! ### contract level: `PolyhedralIoContract.optimize` / `get_variable_bounds` run the list operation on `a | g` -/
+
+theorem holds_union (a g : TL) (v : Val) : TL.holds (Gen.list_union a g) v ↔ TL.holds a v ∧ TL.holds g v := by
+  constructor
+  · intro h
+    exact ⟨fun t ht => h t ((Gen.mem_list_union a g t).mpr (Or.inl ht)), fun t ht => h t ((Gen.mem_list_union a g t).mpr (Or.inr ht))⟩
+  · rintro ⟨ha, hg⟩ t ht
+    rcases (Gen.mem_list_union a g t).mp ht with h | h
+    · exact ha t h
+    · exact hg t h
+
+/-- a value is returned only if some behaviour satisfying assumptions and guarantees attains it and none exceeds it -/
+theorem contract_optimize_some (O : Oracle) (hO : O.PresolveAmbiguous) (c : Contract PTerm) (obj : Lin) (mx : Bool) (m : Rat)
+    (h : PolyAlg.optimizeC O c obj mx = .ok (some m)) :
+    (∃ z, TL.holds c.a z ∧ TL.holds c.g z ∧ evalL obj z = m) ∧
+    ∀ z, TL.holds c.a z → TL.holds c.g z → (if mx then evalL obj z ≤ m else m ≤ evalL obj z) := by
+  obtain ⟨⟨z, hz, hm⟩, hall⟩ := Poly.optimize_some O hO _ obj mx m h
+  exact ⟨⟨z, ((holds_union _ _ z).mp hz).1, ((holds_union _ _ z).mp hz).2, hm⟩,
+    fun z ha hg => hall z ((holds_union _ _ z).mpr ⟨ha, hg⟩)⟩
+
+/-- `None` only if the contract has a behaviour and the objective is unbounded over its behaviours -/
+theorem contract_optimize_none (O : Oracle) (hO : O.PresolveAmbiguous) (c : Contract PTerm) (hp : TL.Proper (Gen.list_union c.a c.g))
+    (obj : Lin) (mx : Bool) (h : PolyAlg.optimizeC O c obj mx = .ok none) :
+    (∃ z, TL.holds c.a z ∧ TL.holds c.g z) ∧
+    ∀ M, ∃ z, TL.holds c.a z ∧ TL.holds c.g z ∧ (if mx then M < evalL obj z else evalL obj z < -M) := by
+  obtain ⟨⟨z, hz⟩, hall⟩ := Poly.optimize_none O hO _ hp obj mx h
+  refine ⟨⟨z, (holds_union _ _ z).mp hz⟩, fun M => ?_⟩
+  obtain ⟨z', hz', hM⟩ := hall M
+  exact ⟨z', ((holds_union _ _ z').mp hz').1, ((holds_union _ _ z').mp hz').2, hM⟩
+
+/-- `ValueError` only if no behaviour satisfies assumptions and guarantees together -/
+theorem contract_optimize_err (O : Oracle) (hO : O.PresolveAmbiguous) (c : Contract PTerm) (obj : Lin) (mx : Bool)
+    (h : PolyAlg.optimizeC O c obj mx = .error .valueError) : ¬ ∃ z, TL.holds c.a z ∧ TL.holds c.g z :=
+  fun ⟨z, ha, hg⟩ => Poly.optimize_err O hO _ obj mx h ⟨z, (holds_union _ _ z).mpr ⟨ha, hg⟩⟩
+
+/-- every behaviour of the contract lies within the reported variable bounds -/
+theorem contract_bounds_enclose (O : Oracle) (hO : O.PresolveAmbiguous) (c : Contract PTerm) (x : Var) (lo hi : Option Rat)
+    (h : PolyAlg.boundsC O c x = .ok (lo, hi)) :
+    ∀ v, TL.holds c.a v → TL.holds c.g v → (∀ a, lo = some a → a ≤ v x) ∧ (∀ b, hi = some b → v x ≤ b) :=
+  fun v ha hg => Poly.bounds_enclose O hO _ x lo hi h v ((holds_union _ _ v).mpr ⟨ha, hg⟩)
 
 theorem certified_is_ambiguous (O : Oracle) (h : O.Certified) : O.PresolveAmbiguous :=
   Oracle.Certified.toPresolveAmbiguous O h
